@@ -183,6 +183,22 @@ CHECKS['C19'] = dict(
     technique="TLA+ transformation/relation definitions model-checked on a grid + TLC trace validation of paired real fits",
     ref="DESIGN.md section 5 C19")
 
+CHECKS['C09'] = dict(
+    text=("The documented statistics are written in ClosedForm.tla as exact, division-free scaled quantities (n(n-1) x sample "
+          "covariance, P N x within-chunk covariance, P x local within-class and nP x local between-class LFDA scatter with "
+          "the k-th-nearest-same-class-neighbour local scale selected by exact comparison); their transformation laws are "
+          "model-checked on a grid (MC_Geometry). For recorded fits of Covariance, RCA and LFDA on random layouts TLC "
+          "(TR_ClosedForm) recomputes the statistics from the logged input, verifies the witnesses (generalised eigen-"
+          "decompositions, roots, quotients; exp values tabulated from libm) and checks: Moore-Penrose conditions for "
+          "Covariance (incl. exactly singular covariance), L C_w L^T = I and L C_w v_j = 0 on discarded directions for "
+          "RCA, and for LFDA that every row of L is the r-th leading generalised eigenvector with the scaling of its "
+          "embedding_type (plain: unit S_w-norm, weighted: times sqrt(lambda), orthonormalized: orthonormal flag basis)."),
+    note=("libm exp is trusted (only range / zero rule checked); cases without an eigen-gap or with a rejected witness are "
+          "inconclusive (clause prefix X09) and counted, never violations; LFDA cases use d <= 3 and classes of >= 4 members "
+          "(so that the code's running minimum over class sizes of k does not come into play)."),
+    technique="TLA+ exact statistics + witness-verified optimality certificates evaluated by TLC on recorded fits",
+    ref="DESIGN.md section 5 C09")
+
 NOT_YET = {}
 
 def main():
